@@ -123,3 +123,12 @@ Definition qhashmd5_file (garbage : list N) (file : list N) (offset nbytes : N) 
   let pos := skipn (N.to_nat offset) file in
   bind (file_loop (S (S (N.to_nat (nbytes / md5_file_bufsize)))) (MD5Init garbage) pos nbytes) (fun oc =>
     match oc with None => Ok None | Some c => bind (MD5Final c) (fun d => Ok (Some d)) end).
+
+(* any sequence of MD5Update calls, each on its own buffer (data, what follows the data), then MD5Final *)
+Fixpoint md5_updates (c : md5ctx) (chunks : list (list N * list N)) : res md5ctx :=
+  match chunks with
+  | [] => Ok c
+  | (data, junk) :: r => bind (MD5Update c (data ++ junk) (N.of_nat (length data))) (fun c' => md5_updates c' r)
+  end.
+Definition md5_stream (garbage : list N) (chunks : list (list N * list N)) : res (list N) :=
+  bind (md5_updates (MD5Init garbage) chunks) MD5Final.
